@@ -13,7 +13,7 @@ CLOSED = ('Paragraph', 'Heading', 'SetextHeading', 'ThematicBreak', 'Quote', 'Ta
 TOKEN_SETS = [None, 'Html']
 
 # B documents whose first block consumes class-level scratch state that A may have written
-SCRATCH_B = ['#\n', '##\n', '######\n', '# t #\n', '```\ncode\n```\n', '``` info\ncode\n```\n', '~~~\ncode\n', '<x-note>\nfoo\n\nbar\n',
+SCRATCH_B = ['#\n', '##\n', '######\n', '# t #\n', '# #\n', '## ##\n', '### #  \n', '# # #\n', '> ## ##\n', '- # #\n', '```\ncode\n```\n', '``` info\ncode\n```\n', '~~~\ncode\n', '<x-note>\nfoo\n\nbar\n',
              '<div>\nfoo\n\nbar\n', '<!-- c\n\n-->\nz\n', '<pre>\n\nx\n</pre>\n', '<?p\n\n?>\n', 'Title\n=====\n', 'Title\n-----\n', '---\n',
              'a | b\n--|--\nc | d\n', '> q\n', '- i\n', '1. i\n', '    code\n', 'para\n', '> Title\n> ===\n', '- Title\n  ---\n',
              '> a | b\n> --|--\n> c | d\n> e | f\n', '- x\n\n  a | b\n  --|--\n  c | d\n', '> q\n>\n> - i\n>   > # h\n>   >\n>   > p\n', '-\n  foo\n\n  bar\n',
